@@ -462,3 +462,61 @@ WORLD_ASSUME = ["world state after a caught hecs panic (duplicate component type
                 "checked for the drop ledger, not for C01/C02 consistency",
                 "id-targeted spawns exercised for ids <= 4096 only; entity counts per world stay below ~200",
                 "TypeId order taken from the harness at run time (model is parametric in it)"]
+
+
+# ----------------------------------------------------------------------------- engine 7: reservation schedules
+def interleavings(lens):
+    """all sequences over thread indices in which thread i occurs lens[i] times"""
+    out = []
+
+    def rec(rem, acc):
+        if not any(rem):
+            out.append(list(acc)); return
+        for i, r in enumerate(rem):
+            if r:
+                rem[i] -= 1; acc.append(i)
+                rec(rem, acc)
+                acc.pop(); rem[i] += 1
+    rec(list(lens), [])
+    return out
+
+
+RCALLS = [(0, 0), (1, 0), (1, 1), (1, 2), (1, 3), (2, 0)]
+
+
+def enc_reserve(nfree, nlive, progs, sched):
+    c = [7, nfree, nlive, len(progs)]
+    for p in progs:
+        c.append(len(p))
+        for (a, b) in p:
+            c += [a, b]
+    return c + sched
+
+
+def gen_reserve(tier, seed):
+    rnd = random.Random(seed)
+    # the split of one request across the free list and fresh ids, for every free-list size
+    for nfree in range(0, 5):
+        for n in range(0, 7):
+            yield enc_reserve(nfree, 1, [[(1, n)], [(0, 0), (2, 0)]], [0, 1, 1])
+            yield enc_reserve(nfree, 1, [[(1, n)], [(0, 0), (2, 0)]], [1, 0, 1])
+    progs1 = [[c] for c in RCALLS] + [[a, b] for a in RCALLS for b in RCALLS]
+    pairs = [(p, q) for p in progs1 for q in progs1]
+    if tier == "quick":
+        rnd.shuffle(pairs); pairs = pairs[:500]
+    for (p, q) in pairs:
+        for s in interleavings([len(p), len(q)]):
+            yield enc_reserve(rnd.randrange(0, 5), rnd.randrange(0, 3), [p, q], s)
+    for _ in range(300 if tier == "quick" else 4000):
+        ps = [[rnd.choice(RCALLS) for _ in range(rnd.randrange(1, 4))] for _ in range(3)]
+        scheds = interleavings([len(p) for p in ps])
+        rnd.shuffle(scheds)
+        for s in scheds[:6 if tier == "quick" else 40]:
+            yield enc_reserve(rnd.randrange(0, 5), rnd.randrange(0, 3), ps, s)
+    for i in range(3 if tier == "quick" else 12):
+        yield [70, 4 + 2 * (i % 3), 3000 if tier == "quick" else 20000, i % 5 * 7, seed + i]
+
+
+def nontrivial_reserve(case, obs):
+    # non-trivial: at least two threads reserved something and the free list was non-empty, or stress
+    return case[0] == 70 or (case[1] > 0 and len(obs) > 12)
